@@ -1,7 +1,7 @@
 """C06 - strict encoding rejects exactly the constraint-violating molecules (DESIGN 7.6)."""
 ID = 'C06'
 LEVEL = 'other'
-TARGETS = []
+TARGETS = ['selfies/bond_constraints.py::set_semantic_constraints', 'selfies/bond_constraints.py::get_bonding_capacity']
 EXPLANATION = (
     "BOUNDED stand-in (runtime property contract on the public encoder; not counted as proved) plus every deductive "
     "clause listed in coverage.clauses: for 8 constraint tables switched between calls inside one process (stale-memo "
